@@ -56,8 +56,10 @@ class COOData:
             raise NotImplementedError("Cannot build local matrices if "
                                       "local_shape is not specified.")
 
-        local = np.moveaxis(self.data.reshape(self.local_shape + (-1,),
-                                              order='C'), -1, 0)
+        # data is stored in C order with the local indices reversed and the
+        # element index last, e.g., (trial, test, element) for a matrix
+        local = self.data.reshape(self.local_shape[::-1] + (-1,),
+                                  order='C').T
         if basis is not None:
             out = np.zeros((basis.mesh.nfacets,) + local.shape[1:])
             out[basis.find] = local
@@ -69,7 +71,7 @@ class COOData:
         """Reverse of :meth:`COOData.tolocal`."""
         return replace(
             self,
-            data=np.moveaxis(local, 0, -1).flatten('C'),
+            data=local.T.flatten('C'),
         )
 
     def inverse(self):
